@@ -9,6 +9,7 @@ Exit codes (DESIGN.md 5.1):  0 held, 1 VIOLATION, 2 inconclusive (harness,
 tool or environment failure - never a verdict about mysync).
 """
 import atexit
+import collections
 import json
 import os
 import re
@@ -157,7 +158,7 @@ def parse_tlc(out):
             continue
         if ln.startswith("Error:") and "The behavior up to this point" not in ln:
             r.errors.append(ln + " " + (lines[i + 1] if i + 1 < n else ""))
-        if ln.startswith("***") or "Parsing or semantic analysis failed" in ln \
+        if ln.startswith("*** Errors") or ln.startswith("*** Abort") or "Parsing or semantic analysis failed" in ln \
                 or "Semantic errors" in ln:
             r.errors.append(ln)
         if ln.startswith("<<\"") or ln.startswith("\"VP:") or ln.startswith("<<\"VP"):
@@ -454,6 +455,9 @@ class Verdict:
                 seen_viol[key][1] += 1
                 continue
             nv += 1
+            if nv > 40:
+                seen_viol[key] = ["", 1]
+                continue
             path = os.path.join(self.ctx.out, "violation-%d.json" % nv)
             with open(path, "w") as fh:
                 json.dump({"property": self.ctx.pid, "clause": f["clause"], "signature": f["sig"],
@@ -461,8 +465,9 @@ class Verdict:
                            "tier": self.ctx.tier}, fh, indent=1, default=str)
             seen_viol[key] = [path, 1]
             print("VIOLATION property=%s replay=%s" % (self.ctx.pid, path))
-            print("  clause=%s signature=%s" % (f["clause"], json.dumps(f["sig"], sort_keys=True)))
-            print("  " + f["what"])
+            if nv <= 12:
+                print("  clause=%s signature=%s" % (f["clause"], json.dumps(f["sig"], sort_keys=True)))
+                print("  " + f["what"][:600])
         for key, (e, cnt) in seen_known.items():
             print("KNOWN-FINDING: property=%s %s (%d occurrence(s) this run)"
                   % (self.ctx.pid, e.get("what", key), cnt))
@@ -499,7 +504,7 @@ def tla_str_set(xs):
 # --------------------------------------------------------------------------
 
 def rows_check(ctx, pkg, test, module, env=None, timeout=1200, workers=2, rows_name="rows.ndjson",
-               chunk=6000, par=7, crash_is=None):
+               chunk=6000, par=7, crash_is=None, shards=1, allow_empty=False, cfg=None):
     """Run the injected Go driver `test` (writes $VERIF_OUT/rows.ndjson), then TLC `module`
     over the rows with -continue (rows split in chunks validated by parallel TLC processes).
     Returns (rows, [(invariant, row_index, row)], aggregate) where aggregate has .distinct/.generated.
@@ -509,18 +514,76 @@ def rows_check(ctx, pkg, test, module, env=None, timeout=1200, workers=2, rows_n
     out = ctx.sub("rows-" + test.strip("^$"))
     e = {"VERIF_OUT": out, "VERIF_SEED": str(ctx.seed), "VERIF_TIER": ctx.tier}
     e.update(env or {})
-    rc, o = go_test(ctx, pkg, test, env=e, timeout=timeout)
-    path = os.path.join(out, rows_name)
     crash_fail = None
-    if rc != 0 and crash_is and re.search(crash_is[0], o):
-        cur = {}
-        try:
-            cur = json.load(open(os.path.join(out, "current.json")))
-        except Exception:
-            pass
-        crash_fail = (crash_is[1], 0, dict(cur, crash=o[-1500:]))
-    elif rc != 0 or not os.path.exists(path):
-        raise Inconclusive("row driver %s failed (rc=%s):\n%s" % (test, rc, o[-3000:]))
+    path = os.path.join(out, rows_name)
+    if shards > 1:
+        binary = go_test_build(ctx, pkg)
+        crashes = []
+
+        def launch(k, skipfile):
+            d = os.path.join(out, "shard-%d" % k)
+            os.makedirs(d, exist_ok=True)
+            ek = dict(go_env())
+            ek.update(e)
+            ek.update({"VERIF_OUT": d, "VERIF_SHARD": "%d/%d" % (k, shards), "VERIF_SKIPFILE": skipfile})
+            return subprocess.Popen([binary, "-test.run", test, "-test.count=1", "-test.timeout", "%ds" % timeout],
+                                    cwd=os.path.join(REPO, pkg), env=ek, stdout=subprocess.PIPE,
+                                    stderr=subprocess.STDOUT, text=True, errors="replace")
+        skipfiles = {k: os.path.join(out, "skip-%d.txt" % k) for k in range(shards)}
+        for f in skipfiles.values():
+            open(f, "w").close()
+        procs = {k: launch(k, skipfiles[k]) for k in range(shards)}
+        t_end = time.time() + timeout + 60
+        attempts = collections.Counter()
+        pending = list(range(shards))
+        while pending:
+            k = pending.pop(0)
+            p = procs[k]
+            try:
+                o, _ = p.communicate(timeout=max(1, t_end - time.time()))
+            except subprocess.TimeoutExpired:
+                for q in procs.values():
+                    q.kill()
+                raise Inconclusive("row driver %s shard %d timed out" % (test, k))
+            if p.returncode != 0:
+                d = os.path.join(out, "shard-%d" % k)
+                m = re.search(r"^panic: (.*)$", o, re.M)
+                own = m and "test timed out" not in m.group(1) and re.search(r"/repo/(internal|cmd)/[^\n]*\.go:\d+", o) \
+                    and not re.search(r"^panic: .*\n(?:.*\n){0,6}.*zzverif_", o, re.M)
+                if own and attempts[k] < 25 and os.path.exists(os.path.join(d, "current.json")):
+                    attempts[k] += 1
+                    cur = json.load(open(os.path.join(d, "current.json")))
+                    i0 = o.find("panic: ")
+                    frames = re.findall(r"(/repo/[^\s]+\.go:\d+)", o[i0:i0 + 6000])
+                    crashes.append({"scenario": cur, "panic": m.group(1), "frames": [f for f in frames if "zzverif" not in f][:6],
+                                    "text": o[i0:i0 + 1500]})
+                    with open(skipfiles[k], "a") as fh:
+                        fh.write(cur["id"] + "\n")
+                    procs[k] = launch(k, skipfiles[k])
+                    pending.append(k)
+                    continue
+                for q in procs.values():
+                    q.kill()
+                with open(os.path.join(ctx.out, "driver-failure-shard%d.log" % k), "w") as fh:
+                    fh.write(o)
+                mm = re.search(r"^(panic: .*|fatal error: .*)$", o, re.M)
+                raise Inconclusive("row driver %s shard %d failed (rc=%s): %s\n%s" % (test, k, p.returncode,
+                                   mm.group(1) if mm else "", o[-1500:]))
+        ctx.crashes = crashes
+        with open(path, "w") as allrows:
+            metas = []
+            for k in range(shards):
+                d = os.path.join(out, "shard-%d" % k)
+                with open(os.path.join(d, rows_name)) as fh:
+                    shutil.copyfileobj(fh, allrows)
+                mp = os.path.join(d, "meta.ndjson")
+                if os.path.exists(mp):
+                    metas.append(open(mp).read())
+        with open(os.path.join(out, "meta.ndjson"), "w") as fh:
+            fh.write("".join(metas))
+        rc = 0
+    else:
+        rc, o = go_test(ctx, pkg, test, env=e, timeout=timeout)
     rows = []
     with open(path) as fh:
         lines = [ln for ln in fh if ln.strip()]
@@ -531,13 +594,14 @@ def rows_check(ctx, pkg, test, module, env=None, timeout=1200, workers=2, rows_n
             if not crash_fail:
                 raise Inconclusive("row driver %s wrote a torn row" % test)
     lines = lines[:len(rows)]
-    if not rows and not crash_fail:
+    if not rows and not crash_fail and not allow_empty:
         raise Inconclusive("row driver %s produced no rows" % test)
+    ctx.last_rows_dir = out
     chunks = [(k, lines[k:k + chunk]) for k in range(0, len(lines), chunk)]
 
     def one(item):
         k, ls = item
-        return k, len(ls), tlc(ctx, module, files={"rows.ndjson": "".join(ls)}, cont=True, workers=workers,
+        return k, len(ls), tlc(ctx, module, cfg=cfg, files={"rows.ndjson": "".join(ls)}, cont=True, workers=workers,
                                timeout=timeout)
     fails = []
     agg = TLCResult()
